@@ -232,7 +232,9 @@ class PyCodegen(Stringifier):
         end = self.visit(o.bounds.stop, **kwargs)
         if o.bounds.step:
             incr = self.visit(o.bounds.step, **kwargs)
-            cntrl = f'range({start}, {end} + {incr}, {incr})'
+            # Python ranges exclude the stop value: move it one (not one stride) past the
+            # Fortran bound, in the direction of the stride
+            cntrl = f'range({start}, {end} + (1 if {incr} > 0 else -1), {incr})'
         else:
             cntrl = f'range({start}, {end} + 1)'
         header = self.format_line('for ', var, ' in ', cntrl, ':')
